@@ -1341,6 +1341,160 @@ def q_mirror_reload(o, tier):
             'functions': ['watchtower_plugin::dbm::DBM::load_towers', 'DBM::load_appointment_locators', 'TowerSummary::with_appointments']}
 
 
+def q_retrier_end_state(o, tier):
+    """C13.M6: the task spawned by Retrier::start, after the back-off strategy gave up with error e. Symbolic: the variant d of
+    RetryError and the `permanent` flag p of RetryError::Subscription. Every feasible path to the end of the task sets the
+    retrier status to something other than Running (Failed / Idle / Stopped): a retrier left Running after its task ended is
+    kept for ever by the manager, never restarted, and `retrytower` answers "already being retried". Feasibility ties the
+    three tests on e together: the result of RetryError::is_permanent (its own MIR is read: which variants are permanent),
+    the discriminant switch of `match e`, and the test of Subscription's flag."""
+    funcs, idx, t_mir, err = load_mir('watchtower-plugin', 'lib')
+    if funcs is None:
+        return {'verdict': 'inconclusive', 'reason': 'MIR dump failed'}
+    nf = [n for n in funcs if re.match(r'^retrier::<impl at .*?>::start::\{closure#0\}$', n)]
+    npm = [n for n in funcs if re.match(r'^retrier::<impl at .*?>::is_permanent$', n)]
+    if len(nf) != 1 or len(npm) != 1:
+        return {'verdict': 'inconclusive', 'reason': 'Retrier::start task / RetryError::is_permanent not found'}
+    f, fp = funcs[nf[0]], funcs[npm[0]]
+
+    # --- is_permanent: discriminant -> 'true' | 'false' | 'flag' (the Subscription bool) | 'notflag'
+    def const_of(bid, seen=()):
+        b = fp.blocks[bid]
+        for s_ in b.stmts:
+            m = re.match(r'^_0 = const (true|false);$', s_)
+            if m:
+                return m.group(1)
+        if b.term['kind'] == 'goto' and bid not in seen:
+            return const_of(b.term['next'], seen + (bid,))
+        return None
+    perm = {}
+    b0 = fp.blocks[min(fp.blocks)]
+    sw = [b for b in fp.blocks.values() if b.term['kind'] == 'switch' and any('discriminant(' in s_ for s_ in b.stmts)]
+    if len(sw) != 1:
+        return {'verdict': 'inconclusive', 'reason': 'is_permanent: discriminant switch not found'}
+    for v, tg in sw[0].term['targets']:
+        if not v.isdigit():
+            continue
+        tb = fp.blocks[tg]
+        if tb.term['kind'] == 'switch' and re.search(r'as \w+\)\.1: bool', tb.term['operand']):
+            tt = dict(tb.term['targets'])
+            hi = const_of(tt.get('otherwise', tt.get('1')))
+            lo = const_of(tt.get('0'))
+            if hi == 'true' and lo == 'false':
+                perm[int(v)] = 'flag'
+            elif hi == 'false' and lo == 'true':
+                perm[int(v)] = 'notflag'
+            else:
+                return {'verdict': 'inconclusive', 'reason': 'is_permanent: flag arm not readable'}
+        else:
+            c = const_of(tg)
+            if c is None:
+                return {'verdict': 'inconclusive', 'reason': 'is_permanent: arm %s not readable' % v}
+            perm[int(v)] = c
+    # --- the task: from the is_permanent call to the end
+    call = [b for b in f.blocks.values() if b.term['kind'] == 'call' and re.search(r'RetryError::is_permanent$', b.term['callee'])]
+    if len(call) != 1:
+        return {'verdict': 'inconclusive', 'reason': 'call to is_permanent not found in the task'}
+    perm_dest = call[0].term['dest']
+    # the error local: is_permanent(move _a) with `_a = &_e`
+    a = call[0].term['args'][0].strip().split()[-1]
+    e_local = None
+    for s_ in call[0].stmts:
+        m = re.match(r'^%s = &(_\d+);$' % re.escape(a), s_)
+        if m:
+            e_local = m.group(1)
+    if e_local is None:
+        return {'verdict': 'inconclusive', 'reason': 'error local not found'}
+    paths, stack, steps = [], [(call[0].term['next'], (), {})], 0
+    while stack:
+        bb, tr, vis = stack.pop()
+        steps += 1
+        if steps > 400000:
+            return {'verdict': 'inconclusive', 'reason': 'path explosion'}
+        if vis.get(bb, 0) >= 1:
+            continue
+        vis = dict(vis)
+        vis[bb] = 1
+        b = f.blocks[bb]
+        disc_of = {}
+        for s_ in b.stmts:
+            m = re.match(r'^(_\d+) = discriminant\((_\d+)\);$', s_)
+            if m:
+                disc_of[m.group(1)] = m.group(2)
+            m = re.match(r'^_\d+ = (RetrierStatus::\w+)', s_)
+            if m:
+                tr = tr + (('mk', m.group(1)),)
+        t = b.term
+        if t['kind'] == 'call':
+            if re.search(r'Retrier::set_status$', t['callee']):
+                last = [e for e in tr if e[0] == 'mk']
+                tr = tr + (('set', last[-1][1] if last else '?'),)
+            if t['next']:
+                stack.append((t['next'], tr, vis))
+        elif t['kind'] == 'switch':
+            op = t['operand'].split()[-1] if not t['operand'].endswith('bool)') else t['operand']
+            listed = [v for v, _ in t['targets'] if v.isdigit()]
+            for v, tg in t['targets']:
+                tr2 = tr
+                if op == perm_dest:
+                    tr2 = tr + (('perm', v != '0'),)
+                elif op in disc_of and disc_of[op] == e_local:
+                    tr2 = tr + (('disc', v, tuple(listed)),)
+                elif re.search(r'\(%s as \w+\)\.1: bool' % re.escape(e_local), t['operand']):
+                    tr2 = tr + (('flag', v != '0'),)
+                stack.append((tg, tr2, vis))
+        elif t['kind'] in ('goto', 'drop', 'assert', 'yield'):
+            stack.append((t['next'], tr, vis))
+        elif t['kind'] == 'return':
+            paths.append(tr)
+    paths = sorted(set(paths))
+    if not paths or not any(e[0] == 'disc' for p_ in paths for e in p_) or not any(e[0] == 'perm' for p_ in paths for e in p_):
+        return {'verdict': 'inconclusive', 'reason': 'vacuous: %d paths, tests on the error not found' % len(paths)}
+    nvar = max(perm) + 1
+
+    def perm_smt():
+        s_ = 'false'
+        for d_, c in perm.items():
+            val = {'true': 'true', 'false': 'false', 'flag': 'p', 'notflag': '(not p)'}[c]
+            s_ = '(ite (= d %d) %s %s)' % (d_, val, s_)
+        return s_
+    text = '(set-logic ALL)\n(declare-const d Int)\n(declare-const p Bool)\n(declare-const k Int)\n(assert (and (>= d 0) (< d %d)))\n' % nvar
+    text += '(define-fun perm () Bool %s)\n' % perm_smt()
+    disj = []
+    for k, p_ in enumerate(paths):
+        ends = [e[1] for e in p_ if e[0] == 'set' and e[1] != 'RetrierStatus::Running']
+        if ends:
+            continue
+        cs = ['(= k %d)' % k]
+        for e in p_:
+            if e[0] == 'perm':
+                cs.append('perm' if e[1] else '(not perm)')
+            elif e[0] == 'disc':
+                if e[1].isdigit():
+                    cs.append('(= d %s)' % e[1])
+                else:
+                    cs += ['(not (= d %s))' % x for x in e[2]]
+            elif e[0] == 'flag':
+                cs.append('p' if e[1] else '(not p)')
+        disj.append('(and %s)' % ' '.join(cs))
+    text += '(assert (or false %s))\n(check-sat)\n(get-model)\n' % ' '.join(disj)
+    v, out, dt = smt(text)
+    if v == 'inconclusive':
+        return {'verdict': 'inconclusive', 'reason': out[:200]}
+    failed = []
+    if v == 'sat':
+        k = int(re.search(r'define-fun k \(\) Int\s+(\d+)', out).group(1))
+        d_ = int(re.search(r'define-fun d \(\) Int\s+(\d+)', out).group(1))
+        pv = re.search(r'define-fun p \(\) Bool\s+(true|false)', out)
+        failed.append({'description': 'after the retry strategy gave up, the task of Retrier::start can end without taking the retrier out of the Running state: it is never restarted, never idles, and manual retries are refused',
+                       'function': 'Retrier::start', 'pre_state': {'RetryError variant index': d_, 'Subscription.permanent': pv.group(1) if pv else None},
+                       'schedule': [list(map(str, e)) for e in paths[k]]})
+    return {'verdict': 'fails' if failed else 'holds', 'failed': failed, 'queries': 1, 'solver_s': dt,
+            'witness': {'paths': len(paths), 'is_permanent': {str(k_): v_ for k_, v_ in perm.items()},
+                        'end_states': sorted({e[1] for p_ in paths for e in p_ if e[0] == 'set'})},
+            'functions': ['watchtower_plugin::retrier::Retrier::start::{closure#0}', 'RetryError::is_permanent']}
+
+
 def q_retry_data_kept(o, tier):
     """C13.M5: RetryManager::manage_retry, one received message (tower_id, data). Every path from the reception back to the
     next reception either (a) finds the tower abandoned (contains_key false), (b) hands the data to
@@ -1780,6 +1934,7 @@ QUERIES = {
     'retry_data_kept': q_retry_data_kept,
     'purge_vs_store': q_purge_vs_store,
     'mirror_reload': q_mirror_reload,
+    'retrier_end_state': q_retrier_end_state,
 }
 
 
